@@ -19,7 +19,9 @@ RULE = (
     "densities {0,.2,.5,.9}, empty lines, unsorted within-line indices, explicit zeros; index sets "
     "sorted/unsorted, with repetition where numpy semantics allow, boolean masks, single ints; run-length "
     "counts including 0; stored values small integers, large integers differing by one, floats differing in the last "
-    "digits, or (copying utilities) all entries times 1e-15 / 1e15 / 1+2^-40; index-pointer intervals free, ordered with overlaps and gaps, or taken from the indptr of a "
+    "digits, or (copying utilities) all entries times 1e-15 / 1e15 / 1+2^-40; blocks of different value types (float64 / "
+    "float32 / int64 / int32 / bool / complex, non-integer values) for the construction from sparse blocks, the reference "
+    "following numpy type promotion; index-pointer intervals free, ordered with overlaps and gaps, or taken from the indptr of a "
     "compressed matrix for a line list with repetitions. Oracle = the dense numpy expression of the docstring, exact equality. "
     "Non-trivial = matrix with >=2 stored entries, or index/count array of length >=2; distinct = hash of spec."
 )
@@ -44,7 +46,22 @@ FNS = [
     "expand_indices_nd", "expand_indices_add_increment", "kron", "row_col_data", "optimized_storage",
 ]
 REQUIRED = {f: 0.015 for f in FNS}
-REQUIRED.update({"stack-empty-A": 0.004, "stack-then-modify": 0.01, "values-scaled": 0.03, "rle-int-large": 0.003, "rle-float-close": 0.003, "eip-ordered": 0.003, "eip-indptr": 0.006, "eip-ordered-overlap-and-gap": 0.002})
+REQUIRED.update({"blocks-mixed-dtype": 0.01, "blocks-first-dtype-narrower": 0.005, "stack-empty-A": 0.004, "stack-then-modify": 0.01, "values-scaled": 0.03, "rle-int-large": 0.003, "rle-float-close": 0.003, "eip-ordered": 0.003, "eip-indptr": 0.006, "eip-ordered-overlap-and-gap": 0.002})
+
+
+def _typed_block(B, t):
+    """The generated block with the value type t (values halved for the types marked h, so that they are not integers)."""
+    if t == "f8":
+        return B
+    if t == "f8h":
+        B = B.copy(); B.data = B.data * 0.5
+        return B
+    if t == "f4h":
+        B = B.copy(); B.data = B.data * 0.5
+        return B.astype(np.float32)
+    if t == "c16":
+        return B.astype(complex) * (0.5 + 0.5j)
+    return B.astype({"i8": np.int64, "i4": np.int32, "b": bool}[t])
 
 
 # ----------------------------------------------------------------------------- strategies
@@ -122,7 +139,10 @@ def _spec(draw):
         s.update(A=draw(sparse_spec(max_dim=5)), nd=draw(st.integers(1, 3)))
     elif fn == "from_sparse_blocks":
         s.update(blocks=draw(st.lists(sparse_spec(max_dim=4), min_size=1, max_size=4)),
-                 fmt=draw(st.sampled_from(["csr", "csc"])))
+                 fmt=draw(st.sampled_from(["csr", "csc"])),
+                 # value type of each block (blocks of different types are concatenated: integer incidence
+                 # matrices next to real ones); "f8h" / "f4h" / "c16" carry non-integer values
+                 bdt=draw(st.lists(st.sampled_from(["f8", "f8h", "f8h", "i8", "i4", "b", "f4h", "c16"]), min_size=4, max_size=4)))
     elif fn == "from_dense_blocks":
         bs, nb = draw(st.integers(1, 4)), draw(st.integers(1, 4))
         s.update(bs=bs, nb=nb, fmt=draw(st.sampled_from(["csr", "csc"])),
@@ -364,10 +384,15 @@ def check(s):
         K = mo.sparse_kronecker_product(A, s["nd"])
         require_equal(K.toarray(), np.kron(dense_of(s["A"]), np.eye(s["nd"])), "kron-values", "")
     elif fn == "from_sparse_blocks":
-        blocks = [build_sparse(b) for b in s["blocks"]]
+        blocks = [_typed_block(build_sparse(b), t) for b, t in zip(s["blocks"], s.get("bdt", ["f8"] * 4))]
+        if len({B.dtype for B in blocks}) > 1:
+            labels.append("blocks-mixed-dtype")
+            if blocks[0].dtype != np.result_type(*[B.dtype for B in blocks]):
+                labels.append("blocks-first-dtype-narrower")
         f = mo.csr_matrix_from_sparse_blocks if s["fmt"] == "csr" else mo.csc_matrix_from_sparse_blocks
         M = f(blocks)
-        exp = scipy.linalg.block_diag(*[dense_of(b) for b in s["blocks"]])
+        # reference: the dense blocks as scipy itself converts the inputs, placed on the diagonal (numpy type promotion)
+        exp = scipy.linalg.block_diag(*[B.toarray() for B in blocks])
         require(M.format == s["fmt"], "blocks-format", M.format)
         require(M.shape == exp.shape, "blocks-shape", f"{M.shape} vs {exp.shape}")
         require_equal(M.toarray(), exp, "blocks-values", "from_sparse_blocks")
